@@ -161,14 +161,14 @@ def exportLine (r2d : α) (l : Line α) : BrRec α :=
 def exportGen (base : α) (g : Gen α) : GenRec α :=
   ⟨g.bus, g.p0 * base, g.q0 * base, g.qmax * base, g.qmin * base, g.v0, g.u, g.pmax * base, g.pmin * base⟩
 
-/-- `bus[pq_pos, 2] = PQ.p0.v * base_mva`: NumPy fancy assignment, the LAST device on the bus wins; `u` is not read -/
-def lastOn (f : PQ α → α) (b : Int) : List (PQ α) → α
-  | [] => 0.0
-  | p :: ps => let rest := lastOn f b ps
-               if p.bus == b && !(ps.any (fun q => q.bus == b)) then f p else rest
+/-- `np.add.at(bus[:, 2], pq_pos, PQ.u.v * PQ.p0.v * base_mva)`: the loads of a bus add up in device order, an
+out-of-service load contributes zero (on the pinned tree a fancy assignment: the LAST device on the bus won and `u`
+was not read — findings `mpc-export-loads-last-wins`, `mpc-export-offline-load`, repaired) -/
+def sumOn (f : PQ α → α) (b : Int) (ps : List (PQ α)) : α :=
+  ps.foldl (fun acc p => if p.bus == b then acc + (if p.u == 1 then f p else 0.0) else acc) 0.0
 
-def exportPd (base : α) (pqs : List (PQ α)) (b : Int) : α := lastOn (fun p => p.p0 * base) b pqs
-def exportQd (base : α) (pqs : List (PQ α)) (b : Int) : α := lastOn (fun p => p.q0 * base) b pqs
+def exportPd (base : α) (pqs : List (PQ α)) (b : Int) : α := sumOn (fun p => p.p0 * base) b pqs
+def exportQd (base : α) (pqs : List (PQ α)) (b : Int) : α := sumOn (fun p => p.q0 * base) b pqs
 
 /-- the electrical meaning: total connected constant-power load at a bus -/
 def busLoadP : List (PQ α) → Int → α
